@@ -276,8 +276,49 @@ def check(ctx):
                 run.add('C03.lookup', fn.module.name, fn.qualname, n, ok,
                         'the match result is keyed by the port name' if ok else f'the match result is keyed by `{key}`',
                         node=n)
+    # who may refuse a port without semantics: only the consumer, after the injected ports are filtered out.  The name
+    # sets handed to match() contain the injected requires ports (portnames_t does not filter), which never need one.
+    psel = prog.modules.get('dznpy.adv_shell.port_selection')
+    n_match = 0
+    for cls_name in ('PortsSemanticsCfg', 'PortsCfg'):
+        cls_ = psel.classes.get(cls_name) if psel else None
+        m_ = cls_.methods.get('match') if cls_ else None
+        if m_ is None:
+            continue
+        n_match += 1
+
+        def expand_(e, depth=0, fn_=m_):
+            out = ast.unparse(e)
+            if depth > 3:
+                return out
+            for nm in {x.id for x in ast.walk(e) if isinstance(x, ast.Name)}:
+                defs = [a for a in iter_own_nodes(fn_.node) if isinstance(a, ast.Assign) and len(a.targets) == 1
+                        and isinstance(a.targets[0], ast.Name) and a.targets[0].id == nm]
+                if len(defs) == 1:
+                    out += ' <- ' + expand_(defs[0].value, depth + 1)
+            return out
+
+        params_ = [a.arg for a in m_.params()[1:]]
+        bad_ = []
+        for r in [x for x in iter_own_nodes(m_.node) if isinstance(x, ast.Raise)]:
+            conds = [c for c, pol in ctx.flow.path_conditions(r)]
+            full = ' && '.join(expand_(c) for c in conds)
+            # allowed: configured names that are not among the component's ports (configured - expected)
+            refuses_unassigned = any(isinstance(x, ast.BinOp) and isinstance(x.op, ast.Sub) and
+                                     any(isinstance(y, ast.Name) and y.id in params_ for y in ast.walk(x.left))
+                                     for c in conds for x in ast.walk(c)) or \
+                any(f'{p_} - ' in full or f'not in result' in full for p_ in params_) or 'result' in full
+            if refuses_unassigned:
+                bad_.append(r)
+        run.add('C03.injected', psel.name, f'{cls_name}.match', bad_[0] if bad_ else f'{cls_name}.match raises', not bad_,
+                'match() refuses only configured names that are not ports of the component' if not bad_ else
+                'match() refuses ports of the component that are left without semantics: its name sets include the injected requires '
+                'ports, which are never exposed and never need a semantics - a valid configuration is rejected',
+                node=bad_[0] if bad_ else None)
+    if n_match < 2:
+        run.error('C03.injected', 'dznpy.adv_shell.port_selection', '-', 'match methods', f'{n_match} match methods found (2 expected)')
     run.floor('C03.lookup', 3)
-    run.floor('C03.injected', 2)
+    run.floor('C03.injected', 4)
 
     # ---- C03.rejects: construction-time rejections exist ------------------------------------------------------------------------------
     _rejects(ctx, ex, psc, pc, adv_err)
